@@ -92,7 +92,7 @@ PROPS = {
                          "RModel.Impl.decoded_valid_is_wf", "RModel.Impl.validate_implies_wf_of_decoded",
                          "RModel.BSet.canon_ext"] + F_SERIAL,
             "modules": DEFAULT_MODULES + [FACTS, "RProofs.Properties.C09", "RProofs.Properties.C05"], "owns": None},
-    "C11": {"suites": [("agg", 1.0)], "theorems": L1_AGG + L1_ALGEBRA, "modules": DEFAULT_MODULES + ["RProofs.Agg"], "owns": set(AGG_OPS)},
+    "C11": {"suites": [("agg", 1.0), ("kernspecial", 0.6)], "theorems": L1_AGG + L1_ALGEBRA, "modules": DEFAULT_MODULES + ["RProofs.Agg"], "owns": set(AGG_OPS) | {"kern"}},
     # C12: schedule independence / termination / no leak (sched), concurrent decoding through the pools (concdec); the
     # protocol theorems are about the transition systems of Impl/Par.lean, pinned to the source by the skeleton obligations
     "C12": {"suites": [("sched", 1.0)], "theorems": PAR + L1_AGG[:3],
@@ -130,7 +130,7 @@ PROPS = {
             "modules": ["RProofs.Facts.Bits", "RProofs.BSI"], "owns": None},
 }
 
-HOOK_COMMITS = ["ad703f4", "ff7f62c"]
+HOOK_COMMITS = ["ad703f4", "ff7f62c", "c535057"]
 NOT_YET = {}
 DEFAULT_LEVEL_TEXT = ("Theorems (Lean 4 kernel-checked, unbounded) give the meaning of every operation of the executable oracle in terms of "
                       "membership, and uniqueness of canonical forms; the real Go code is tied to that proved oracle by a correspondence "
